@@ -229,7 +229,11 @@ func macroexpand(ctx context.Context, ast MalType, env EnvType) (MalType, error)
 		if e != nil {
 			return nil, e
 		}
-		fn := mac.(MalFunc)
+		fn, ok := mac.(MalFunc)
+		if !ok {
+			// redefined by a concurrent evaluation since is_macro_call looked it up
+			break
+		}
 		ast, e = Apply(ctx, fn, slc[1:])
 		if e != nil {
 			return nil, e
